@@ -45,7 +45,8 @@ Requests ==
 \cup {Req("InterpArg", entry, end, cls, 0, 0) : entry \in 0..7, end \in 0..1, cls \in 0..3}
 \cup {Req("LocalOrder", f, o, 0, 0, 0) : f \in 0..1, o \in 0..2}
 \* sign pattern of the values at the bracket ends, and their magnitude (1, 1e-170, 1e170, 1e-310): the meaning depends on the signs only
-\cup {Req("FindRoot", pat, mag, 0, 0, 0) : pat \in 0..8, mag \in 0..3}
+\* (patterns 9, 10: NaN at one end and an exact zero at the other: NaN ends stop the program)
+\cup {Req("FindRoot", pat, mag, 0, 0, 0) : pat \in 0..10, mag \in 0..3}
 \cup {Req("Method1D", k, 0, 0, 0, 0) : k \in 0..7}
 \cup {Req(ep, k, 0, 0, 0, 0) : ep \in {"Method2D", "Method3D"}, k \in 0..10}
 \cup {Req("MethodMC", k, 0, 0, 0, 0) : k \in 0..5}
